@@ -110,6 +110,11 @@ fn exact_extract(rep: &mut Report) {
                 let inside = siny.abs_ex() > Ex::from_f64_exact(0.998).unwrap();
                 let back: Euler<Rad<T>> = Euler::from(q);
                 if !inside {
+                    // angles are lattice codes in this tier: a result that is not a code (an implementation that combines
+                    // an angle with pi or a full turn, e.g. to normalise it) cannot be expressed here - the float tiers judge it
+                    if [back.x.0, back.y.0, back.z.0].iter().any(|a| !a.is_integer()) {
+                        ex::domain_exit("extracted angle is not a lattice code");
+                    }
                     ctx.branch("round-trip");
                     same_slice(ctx, &key("extract/round-trip"), &[back.x.0, back.y.0, back.z.0], &[T::int(kx), T::int(ky), T::int(kz)]);
                 } else {
